@@ -78,6 +78,9 @@ def leaf():
     d.append("ListOneR ::= SEQUENCE (SIZE(0..200)) OF INTEGER (5..5)")
     d.append("SetOfNull ::= SET (SIZE(0..40)) OF NULL")
     d.append("HoldNulls ::= SEQUENCE { marks SEQUENCE (SIZE(0..31)) OF NULL, flag BOOLEAN }")
+    # a fixed size of 64K and more has no length determinant at all (X.691 11.9.4.2): the size check is the
+    # only thing between a shorter value and the wire (elements without bits keep the values cheap)
+    d.append("ListNullFix64K ::= SEQUENCE (SIZE(65536)) OF NULL")
     # X.691 14.1 / 23.4: indices follow the numeric values / the canonical tag order, not the text
     d.append("EnumOrd ::= ENUMERATED { hi(5), lo(2), mid(3) }")
     d.append("ChoiceOrd ::= CHOICE { z [5] BOOLEAN, a [2] INTEGER (0..7), m [3] NULL }")
